@@ -18,6 +18,8 @@ F12_WHAT = ('a zero reference value (H_ref: 0 / S_ref: 0 under a units block) is
 
 
 def _imports():
+    from rdkit import RDLogger
+    RDLogger.DisableLog('rdApp.*')
     import pgradd.ThermoChem  # noqa: registers the property set
     from pgradd.GroupAdd.Library import GroupLibrary
     from pgradd.GroupAdd.Group import Group, Descriptor
@@ -212,6 +214,35 @@ class Case:
     pass
 
 
+def eval_object(obj, T, units, flags, info, names, has_mol=True, dim_pairs=None):
+    """every getter of a correlation object (an estimate or a group's own correlation) the properties observe"""
+    ok = {}
+    ok['cp'] = value_out(lambda: obj.get_CpoR(T), 'nd', info, names, ('cp',))
+    ok['h'] = value_out(lambda: obj.get_HoRT(T), 'nd', info, names, ('h',))
+    ok['s'] = [value_out(lambda f=f: obj.get_SoR(T, S_elements=f), 'sel' if f else 'nd', info, names, ('s',), has_mol) for f in flags]
+    ok['g'] = [value_out(lambda f=f: obj.get_GoRT(T, S_elements=f), 'sel' if f else 'nd', info, names, ('h', 's'), has_mol) for f in flags]
+    dim = []
+    for ui, u in enumerate(units):
+        row = []
+        hv = cv = None
+        for fi, f in enumerate(flags):
+            if dim_pairs is not None and (ui, fi) not in dim_pairs:
+                row.append(None)
+                continue
+            site = 'sel' if f else 'dim'
+            if hv is None:      # H and Cp take no flag
+                hv = value_out(lambda: obj.get_H(T, u), 'dim', info, names, ('h',))
+                cv = value_out(lambda: obj.get_Cp(T, u), 'dim', info, names, ('cp',))
+            row.append({
+                'H': hv,
+                'G': value_out(lambda: obj.get_G(T, u, S_elements=f), site, info, names, ('h', 's'), has_mol),
+                'S': value_out(lambda: obj.get_S(T, u, S_elements=f), site, info, names, ('s',), has_mol),
+                'Cp': cv})
+        dim.append(row)
+    ok['dim'] = dim
+    return ok
+
+
 def enc_num(x):
     """replayable spelling of a count / temperature"""
     import numpy as np
@@ -246,7 +277,7 @@ def rebuild(inp):
     return info, mapping, dec_num(inp['T'])
 
 
-def run_case(info, mapping, T, set_name=SET, units=(), flags=(None,), full_lib=False, decoys=(), want_se=False):
+def run_case(info, mapping, T, set_name=SET, units=(), flags=(None,), full_lib=False, decoys=(), want_se=False, dim_pairs=None):
     """mapping: ordered list of (key, count); key is a str, Group or Descriptor (unique as dict keys)."""
     GroupLibrary, Group, Descriptor, ThermochemGroup, Quantity, Error = _imports()
     lib = info.lib
@@ -272,23 +303,7 @@ def run_case(info, mapping, T, set_name=SET, units=(), flags=(None,), full_lib=F
         impl = {'err': {'class': 'internal:' + type(e).__name__}}
     c.est = est
     if est is not None:
-        ok = {}
-        ok['cp'] = value_out(lambda: est.get_CpoR(T), 'nd', info, names, ('cp',))
-        ok['h'] = value_out(lambda: est.get_HoRT(T), 'nd', info, names, ('h',))
-        ok['s'] = [value_out(lambda f=f: est.get_SoR(T, S_elements=f), 'sel' if f else 'nd', info, names, ('s',), has_mol) for f in flags]
-        ok['g'] = [value_out(lambda f=f: est.get_GoRT(T, S_elements=f), 'sel' if f else 'nd', info, names, ('h', 's'), has_mol) for f in flags]
-        dim = []
-        for u in units:
-            row = []
-            for f in flags:
-                site = 'sel' if f else 'dim'
-                row.append({
-                    'H': value_out(lambda: est.get_H(T, u), 'dim', info, names, ('h',)),
-                    'G': value_out(lambda: est.get_G(T, u, S_elements=f), site, info, names, ('h', 's'), has_mol),
-                    'S': value_out(lambda: est.get_S(T, u, S_elements=f), site, info, names, ('s',), has_mol),
-                    'Cp': value_out(lambda: est.get_Cp(T, u), 'dim', info, names, ('cp',))})
-            dim.append(row)
-        ok['dim'] = dim
+        ok = eval_object(est, T, units, flags, info, names, has_mol, dim_pairs)
         ok['range'] = est.get_range()
         ok['n'] = len(est.correlations)
         if hasattr(est, 'Xp_invXX_Xp'):
@@ -388,6 +403,34 @@ def same_value(info, impl, model, scale):
     return common.close(impl[1], m, scale)
 
 
+def compare_object(info, io, mo, sc, T, units, flags, sel_scale, parts, bad):
+    """the getters of one correlation object: implementation outcome `io` vs model reply `mo`"""
+    good = True
+    if 'nd' in parts:
+        for p in ('cp', 'h'):
+            if not same_value(info, io[p], mo[p], sc[p]):
+                good = bad(p, io[p], mo[p])
+        for i, f in enumerate(flags):
+            ss = sel_scale if f else 0.0
+            if not same_value(info, io['s'][i], mo['s'][i], sc['s'] + ss):
+                good = bad('s flag=%r' % (f,), io['s'][i], mo['s'][i])
+            if not same_value(info, io['g'][i], mo['g'][i], sc['h'] + sc['s'] + ss):
+                good = bad('g flag=%r' % (f,), io['g'][i], mo['g'][i])
+    if 'dim' in parts:
+        for ui, u in enumerate(units):
+            rk, r1 = rfactor(u + '/K'), rfactor(u)
+            for fi, f in enumerate(flags):
+                a, b = io['dim'][ui][fi], mo['dim'][ui][fi]
+                if a is None:
+                    continue
+                ss = sel_scale if f else 0.0
+                for k, s_ in (('H', sc['h'] * abs(T) * (rk or 0.0)), ('G', (sc['h'] + sc['s'] + ss) * abs(T) * (rk or 0.0)),
+                              ('S', (sc['s'] + ss) * (r1 or 0.0)), ('Cp', sc['cp'] * (r1 or 0.0))):
+                    if not same_value(info, a[k], b[k], s_):
+                        good = bad('%s units=%r flag=%r' % (k, u, f), a[k], b[k])
+    return good
+
+
 def compare(ctx, c, reply, op, parts=('nd',)):
     """diff one driver reply with the implementation's outcome; reports through ctx.disagree"""
     info, impl = c.info, c.impl
@@ -415,26 +458,8 @@ def compare(ctx, c, reply, op, parts=('nd',)):
             good = bad('number of terms', io['n'], mo['n'])
         if range_json(io['range']) != mo['range']:
             good = bad('range', range_json(io['range']), mo['range'])
-        for p in ('cp', 'h'):
-            if not same_value(info, io[p], mo[p], sc[p]):
-                good = bad(p, io[p], mo[p])
-        sel_scale = 50.0 * len(c.request['lib']['name'] or [])
-        for i, f in enumerate(c.flags):
-            if not same_value(info, io['s'][i], mo['s'][i], sc['s'] + sel_scale):
-                good = bad('s flag=%r' % (f,), io['s'][i], mo['s'][i])
-            if not same_value(info, io['g'][i], mo['g'][i], sc['h'] + sc['s'] + sel_scale):
-                good = bad('g flag=%r' % (f,), io['g'][i], mo['g'][i])
-    if 'dim' in parts:
-        sel_scale = 50.0 * len(c.request['lib']['name'] or [])
-        for ui, u in enumerate(c.units):
-            rk, r1 = rfactor(u + '/K'), rfactor(u)
-            for fi, f in enumerate(c.flags):
-                a, b = io['dim'][ui][fi], mo['dim'][ui][fi]
-                ss = sel_scale if f else 0.0
-                for k, s_ in (('H', sc['h'] * abs(T) * (rk or 0.0)), ('G', (sc['h'] + sc['s'] + ss) * abs(T) * (rk or 0.0)),
-                              ('S', (sc['s'] + ss) * (r1 or 0.0)), ('Cp', sc['cp'] * (r1 or 0.0))):
-                    if not same_value(info, a[k], b[k], s_):
-                        good = bad('%s units=%r flag=%r' % (k, u, f), a[k], b[k])
+    sel_scale = 50.0 * len(c.request['lib']['name'] or [])
+    good = compare_object(info, io, mo, sc, T, c.units, c.flags, sel_scale, parts, bad) and good
     if 'uq' in parts:
         if (io['uq'] is None) != (mo['uq'] is None):
             good = bad('uq presence', io['uq'], mo['uq'])
